@@ -116,6 +116,14 @@ def exec_op(rt, wl, labs, op):
         return wl.append(op["record"])
     if k == "clear":
         return wl.clear()
+    if k == "set_record":
+        if len(wl):
+            wl[op["index"] % len(wl)] = op["record"]
+        return None
+    if k == "del_record":
+        if len(wl):
+            del wl[op["index"] % len(wl)]
+        return None
     raise ValueError(f"unknown op {k}")
 
 
